@@ -139,6 +139,17 @@ func c07Specials() []*c07Case {
 		c.Entries = []c07Entry{ent(0, false, name), ent(1, false, name)}
 		res = append(res, c)
 	}
+	// names with pattern metacharacters (a fresh-name search must treat names literally): name and
+	// name.0 taken (and name.1 in every other case), also inside a destination directory of that kind
+	for k, name := range []string{"report[1].txt", "a*b", "q?.dat", "x[a-z]y", "back\\slash", "{brace}", "[", "tilde~"} {
+		c := &c07Case{Special: fmt.Sprintf("glob-%d", k), Cfg: c07Cfg{Proto: 1 + k%4, Directory: k%3 == 2}, Role: []string{"V", "C"}[k%2]}
+		c.Pre = append(c.Pre, file(name, "old-glob"), file(name+".0", "old-glob0"))
+		if k%2 == 1 {
+			c.Pre = append(c.Pre, file(name+".1", "old-glob1"))
+		}
+		c.Entries = []c07Entry{ent(0, false, name), ent(1, false, name)}
+		res = append(res, c)
+	}
 	return res
 }
 
